@@ -61,7 +61,9 @@ def judge_tree(tr, v, fam):
         v.notes.append("tree of family %r not judged: edit run exited %r" % (fam, tr.edit1.exit)) if len(v.notes) < 30 else None
         return
     total = tr.rep_check1.total
-    if total is None or total != n_tokens:
+    if total is None:
+        total = len(tr.rep_check1.missing)      # no recognisable grand-total line: count the per-statement reports instead
+    if total != n_tokens:
         v.violation("grand-total-differs", {"family": fam, "check_total": total, "tokens_inserted": n_tokens})
     if tr.rep_edit1.inserted is not None and tr.rep_edit1.inserted != n_tokens:
         v.violation("edit-printed-count-differs", {"family": fam, "printed": tr.rep_edit1.inserted, "tokens_inserted": n_tokens})
